@@ -300,6 +300,31 @@ func debugRefName(d *ssa.DebugRef) string {
 // instruction index `idx` of block b (idx == -1: block start, only phis of dominators and b's own phis).
 func (f *Frame) lookupName(name string, b *ssa.BasicBlock, idx int) (ssa.Value, bool, bool) {
 	// returns (value, isAddr, found)
+	// An addressable local (Alloc named after the variable: captured, named result, address taken) is read through its
+	// cell: value DebugRefs of such a variable are only snapshots taken at individual loads and stores.
+	{
+		var best *ssa.Alloc
+		for blk := b; blk != nil; blk = blk.Idom() {
+			end := len(blk.Instrs)
+			if blk == b && idx >= 0 {
+				end = idx
+			} else if blk == b {
+				end = 0
+			}
+			for i := end - 1; i >= 0; i-- {
+				if a, ok := blk.Instrs[i].(*ssa.Alloc); ok && a.Comment == name {
+					best = a
+					break
+				}
+			}
+			if best != nil {
+				break
+			}
+		}
+		if best != nil {
+			return best, true, true
+		}
+	}
 	first := true
 	for blk := b; blk != nil; blk = blk.Idom() {
 		end := len(blk.Instrs)
